@@ -1,6 +1,12 @@
 mod json;
 mod report;
 mod tcommon;
+mod s_val;
+mod s_ops;
+mod s_ref;
+mod s_run;
+mod s_props;
+mod s_main;
 mod t_c08;
 mod t_c12;
 mod t_c18;
@@ -27,10 +33,13 @@ fn check(prop: &str, tier: &str) -> i32 {
       tcommon::run_scenarios(&mut r, t_catalogue(prop).unwrap(), tier);
       report::finish(r)
     }
-    _ => {
-      eprintln!("MACHINERY-ERROR: unknown property {}", prop);
-      2
-    }
+    _ => match s_main::check(prop, tier) {
+      Some(r) => report::finish(r),
+      None => {
+        eprintln!("MACHINERY-ERROR: unknown property {}", prop);
+        2
+      }
+    },
   }
 }
 
